@@ -45,6 +45,17 @@ def run(tier, rep):
     rep.assumptions += ["TLC 1.8", "zlib (Python) supplies the per-chunk inflate dictionary; only framing and segmentation are verified"]
     for bs in ([2, 7] if quick else [1, 2, 3, 7, 64]):
         sock_engine.mc(rep, True, bs, maxn=3, maxfail=1, maxchunks=2 if quick else 3, calls=(bs == 7))
+    # the composition reader-over-chunked-wrapper (SockFramer.tla, ChunkMode): the reader over a chunked
+    # body delivers what the reader over a file holding the decoded body delivers - for every cut of
+    # the body into chunks and every partition of the wire bytes into receives; behaviours replayed
+    from .. import decode_engine as de
+    from .. import framer_engine, sockframer
+
+    mids = framer_engine.defined_mids(de.real_bundle())
+    sockframer.mc(rep, items=1 if quick else 2, bufsize=3, fails=1, mids=mids, chunked=True, allcuts=quick, heap="3g" if quick else "6g")
+    sockframer.replay(rep, num=200 if quick else 3000, items=2, bufsize=3, fails=1, mids=mids, chunked=True)
+    if not quick:
+        sockframer.replay(rep, num=1500, items=3, bufsize=8, fails=2, mids=mids, chunked=True)
     rnd = rng("c12")
     tr = sock_engine.SockTraces(rep, True)
 
